@@ -113,6 +113,45 @@ def ionice(ctx):
         ctx.prove(exc is not None and same(ctx, snapshot(k, P), before_p), "ionice-unknown-class-rejected", detail=f"class={c}")
 
 
+@harness("C18.ionice_get")
+def ionice_get(ctx):
+    """the get form reports what the kernel holds, for EVERY (class, level) record the kernel can hold -- also the ones psutil's own
+    setter never writes (an idle-class record with a non-zero level, as `ionice -c3` of util-linux stores it; the (none, 4) default)"""
+    k = world(ctx)
+    c, d = ctx.int("kernel_class", 0, 3), ctx.int("kernel_level", 0, 7)
+    k.settings[P]["ioprio"] = (c, d)
+    with k.installed():
+        g = psutil.Process(P).ionice()
+    ctx.prove(ctx.all([ctx.eq(g.ioclass if sym.is_sym(g.ioclass) else int(g.ioclass), c), ctx.eq(g.value, d)]), "ionice-get-reads-kernel", detail=f"{g}")
+
+
+@harness("C18.setter_errors", quick=[dict(what=w) for w in ("nice", "ionice", "cpu_affinity", "rlimit")])
+def setter_errors(ctx, what):
+    """a set that the kernel refuses (EPERM: the process belongs to somebody else; ESRCH: it went away between psutil's own check and
+    the system call) raises AccessDenied / NoSuchProcess -- it never returns as if it had worked -- and changes nothing"""
+    import errno as _errno
+
+    k = world(ctx)
+    err = ctx.choice("kernel_answer", ["EPERM", "ESRCH"])
+    with k.installed():
+        p = psutil.Process(P)
+        before_p, before_q = snapshot(k, P), snapshot(k, Q)
+        if err == "EPERM":
+            k.denied = {P}
+        else:
+            # gone for the system calls only: the /proc entry is still there (the window between the re-use check and the call)
+            k.procs.discard(P)
+        try:
+            {"nice": lambda: p.nice(5), "ionice": lambda: p.ionice(psutil.IOPRIO_CLASS_BE, 3), "cpu_affinity": lambda: p.cpu_affinity([0]),
+             "rlimit": lambda: p.rlimit(psutil.RLIMIT_NOFILE, (10, 20))}[what]()
+            exc = None
+        except psutil.Error as e:
+            exc = e
+    want = psutil.AccessDenied if err == "EPERM" else psutil.NoSuchProcess
+    ctx.prove(isinstance(exc, want) and exc.pid == P, "refused-set-raises", detail=f"{what}: kernel answers {err}, psutil: {exc!r}")
+    ctx.prove(same(ctx, snapshot(k, P), before_p) and same(ctx, snapshot(k, Q), before_q), "refused-set-changes-nothing")
+
+
 @harness("C18.affinity", quick=[dict(mode=m) for m in ("subset", "empty", "invalid")])
 def affinity(ctx, mode):
     allowed = [c for c in range(NCPU) if ctx.flag(f"allowed{c}")]
